@@ -31,6 +31,18 @@ def ansi_edges(cfg):
     return out
 
 
+def _has_ceil(cls, e, depth=0):
+    """the expression rounds up (math.ceil), directly or in a helper method of the class it calls"""
+    for c in ast.walk(e):
+        if isinstance(c, ast.Call):
+            if norm(c.func).endswith("ceil"):
+                return True
+            if depth < 2 and isinstance(c.func, ast.Attribute) and isinstance(c.func.value, ast.Name) and c.func.value.id == "self" and c.func.attr in cls.methods:
+                if any(ret.value is not None and _has_ceil(cls, ret.value, depth + 1) for ret in q.returns(cls.methods[c.func.attr])):
+                    return True
+    return False
+
+
 def control_code_rule(ctx, rule_id, reference=None):
     p, cg = ctx.p, ctx.cg
     sec = ctx.cls("clikit.api.io.section_output.SectionOutput")
@@ -162,4 +174,140 @@ def run(ctx):
         r.ok("erased sections are re-printed oldest first (%s)" % desc)
     else:
         r.fail(pop, pop.node, "order: " + desc, "the sections below are re-printed in reverse creation order (%s)" % desc)
+
+    # ---------------------------------------------------------------- R4
+    r = ctx.rule("C15-R4", "SIBLING", "what was recorded is re-printed as recorded: content is recorded with the indentation already applied, so every "
+                 "re-print of erased sections (in write and in clear alike) goes to the base write with indentation switched off", reference=2)
+    indented_record = any(isinstance(x, ast.BinOp) and isinstance(x.op, ast.Mult) and any(is_self_attr(y, "_indent") for y in (x.left, x.right))
+                          for m in sec.methods.values() if m is not p.lookup_method(sec, "write") for x in ast.walk(m.node))
+    n_rp = 0
+    for name, m in sorted(sec.methods.items()):
+        holders = {t.id for n in walk_no_nested(m.node) if isinstance(n, ast.Assign) and isinstance(n.value, ast.Call) and isinstance(n.value.func, ast.Attribute)
+                   and n.value.func.attr == pop.name for t in n.targets if isinstance(t, ast.Name)}
+        for cs in cg.sites_in(m):
+            if cs.kind != "super" or not cs.node.args:
+                continue
+            a0 = cs.node.args[0]
+            erased = (isinstance(a0, ast.Name) and a0.id in holders) or (isinstance(a0, ast.Call) and isinstance(a0.func, ast.Attribute) and a0.func.attr == pop.name)
+            if not erased:
+                continue
+            n_rp += 1
+            wi = q.kwarg(cs.node, "with_indent")
+            if wi is None and len(cs.node.args) > 3:
+                wi = cs.node.args[3]
+            off = isinstance(wi, ast.Constant) and wi.value is False
+            if off or not indented_record:
+                r.ok("%s: erased content re-printed with_indent=False" % m.short)
+            else:
+                r.fail(m, cs.node, "re-print of erased content indented again", "%s re-prints the erased sections through the indenting write: their lines were recorded with the indentation in "
+                       "them, so after a clear / overwrite of an upper section everything below comes back shifted right" % m.short)
+    if n_rp == 0:
+        r.fail(pop, pop.node, "no re-print", "erased sections are never printed again")
+
+    # ---------------------------------------------------------------- R5
+    from .c17 import global_containers_rule, class_level_through_self
+
+    r = ctx.rule("C15-R5", "OWNER", "'sections of one output': the registry of sections belongs to one Output object - no process-wide (class-level) "
+                 "container of the I/O classes is mutated, directly or by handing it to a constructor that registers in it (same rule as C17-R6)", reference=1)
+    global_containers_rule(ctx, r, mod_pred=lambda m: m.startswith("clikit.api.io"))
+    class_level_through_self(ctx, r, mod_pred=lambda m: m.startswith("clikit.api.io"))
+    if r.n == 0:
+        # nothing class-level in the I/O classes: the registry is an instance attribute set in the constructor
+        regs = [n for n in walk_no_nested(out_cls.methods["__init__"].node) if isinstance(n, ast.Assign) and isinstance(n.value, (ast.List, ast.Call)) and any(is_self_attr(t) and "section" in t.attr for t in n.targets)]
+        if regs:
+            r.ok("Output.__init__: %s per instance" % norm(regs[0]))
+        else:
+            r.fail(out_cls.methods["__init__"], out_cls.methods["__init__"].node, "no per-output registry", "the constructor of Output does not create the section registry")
+
+    # ---------------------------------------------------------------- R6
+    r = ctx.rule("C15-R6", "UNIT", "two units are kept apart: the row counter counts terminal ROWS (a long line wraps into several), the content list holds "
+                 "logical LINES (two entries each). No single value is used both to cut the content list and to change the row counter / move the cursor; "
+                 "and the row counter is only changed incrementally (+= rows, -= rows, = 0)", reference=3)
+    # the row counter: the field add_content increments by ceil(len / width)
+    row_fields = set()
+    for m in sec.methods.values():
+        for n in walk_no_nested(m.node):
+            if isinstance(n, ast.AugAssign) and is_self_attr(n.target) and _has_ceil(sec, n.value):
+                row_fields.add(n.target.attr)
+    ctx.require(len(row_fields) == 1, "cannot identify the row counter of SectionOutput (field incremented by ceil(len / width)): %s" % sorted(row_fields))
+    ROWS = next(iter(row_fields))
+    content_fields = {n.func.value.attr for m in sec.methods.values() for n in walk_no_nested(m.node) if isinstance(n, ast.Call) and isinstance(n.func, ast.Attribute)
+                      and n.func.attr == "append" and is_self_attr(n.func.value)}
+    # parameters of methods of the class that are rows: added to <x>.lines / to the row field
+    row_params = {}
+    for m in sec.methods.values():
+        for n in walk_no_nested(m.node):
+            if isinstance(n, ast.AugAssign) and isinstance(n.target, ast.Name) and n.target.id in m.params and any(isinstance(x, ast.Attribute) and x.attr in ("lines", ROWS) for x in ast.walk(n.value)):
+                row_params.setdefault(m.name, set()).add(n.target.id)
+    recomputed = []
+    for name, m in sorted(sec.methods.items()):
+        cfg = ctx.cfg(m)
+        uses = {}  # var -> {"lines": [node], "rows": [node]}
+        for nd in cfg.nodes:
+            a = nd.ast
+            if a is None or nd.kind in ("T", "F", "loop_body", "loop_exit", "finally", "with_exit", "loop", "except"):
+                continue
+            for x in walk_no_nested(a) if nd.kind != "for" else walk_no_nested(a.iter):
+                if isinstance(x, ast.Subscript) and is_self_attr(x.value) and x.value.attr in content_fields:
+                    for v in q.names_in(x.slice):
+                        uses.setdefault(v, {}).setdefault("lines", []).append(nd)
+                if isinstance(x, ast.AugAssign) and is_self_attr(x.target, ROWS):
+                    for v in q.names_in(x.value):
+                        uses.setdefault(v, {}).setdefault("rows", []).append(nd)
+                if isinstance(x, ast.Call) and isinstance(x.func, ast.Attribute) and x.func.attr in row_params:
+                    callee = sec.methods[x.func.attr]
+                    for prm in row_params[x.func.attr]:
+                        av = q.arg_for_param(x, callee, prm)
+                        if av is not None:
+                            for v in q.names_in(av):
+                                uses.setdefault(v, {}).setdefault("rows", []).append(nd)
+            if nd.kind == "stmt" and isinstance(a, ast.Assign) and any(is_self_attr(t, ROWS) for t in a.targets) and not (isinstance(a.value, ast.Constant) and a.value.value == 0) and name != "__init__":
+                recomputed.append(a)
+                r.fail(m, a, norm(a), "%s recomputes the row counter (%s) instead of changing it by the rows added or removed: computed from the number of content entries it is too small "
+                       "as soon as a line wraps, and stale rows stay on the screen" % (m.short, norm(a)))
+        for v, u in sorted(uses.items()):
+            if v in ("self",) or "lines" not in u or "rows" not in u:
+                continue
+            # one definition of v reaching a use in each unit?
+            defs = [w for w in cfg.writes(lambda t, v=v: t == v)] + ([cfg.entry] if v in m.params else [])
+            clash = None
+            for d in defs:
+                others = {w.id for w in defs if w is not d and w is not cfg.entry}
+                reach = cfg.reach([d.id], blocked=others)
+                l_ = [n_ for n_ in u["lines"] if n_.id in reach and n_.id != d.id]
+                r_ = [n_ for n_ in u["rows"] if n_.id in reach and n_.id != d.id]
+                if l_ and r_:
+                    clash = (d, l_[0], r_[0])
+                    break
+            if clash:
+                d, l_, r_ = clash
+                r.fail(m, r_.ast, "`%s` counts lines in `%s` and rows in `%s`" % (v, norm(l_.ast)[:40], norm(r_.ast)[:40]),
+                       "%s uses one value, `%s`, as a number of logical lines (to cut self.%s: %s) and as a number of terminal rows (%s): when a cleared line is wider than the terminal "
+                       "it occupies several rows, so too few rows are erased and subtracted - stale text stays on the screen and the section's row count no longer matches its content"
+                       % (m.short, v, "/".join(sorted(content_fields)), norm(l_.ast)[:50], norm(r_.ast)[:50]))
+            else:
+                r.ok("%s: `%s` converted between lines and rows before it changes units" % (m.short, v))
+    if not recomputed:
+        r.ok("row counter self.%s changed only by += / -= / = 0" % ROWS)
+
+    # ---------------------------------------------------------------- R7
+    r = ctx.rule("C15-R7", "PAIR", "the record of a section is what was printed for it: in the decorated write, recording the text and printing it happen "
+                 "on exactly the same paths (a write refused by the verbosity gate is neither printed nor recorded)", reference=1)
+    w = p.lookup_method(sec, "write")
+    ctx.require(w is not None and w.cls is sec, "SectionOutput.write missing")
+    wcfg = ctx.cfg(w)
+    text = q.param_names(w)[0]
+    rec = [n for c in q.calls(w) if isinstance(c.func, ast.Attribute) and c.func.attr == "add_content" for n in wcfg.nodes_of(c)]
+    prt = [n for cs in cg.sites_in(w) if cs.kind == "super" and cs.node.args and isinstance(cs.node.args[0], ast.Name) and cs.node.args[0].id == text
+           and not isinstance(getattr(cs.node, "_parent", None), ast.Return) for n in wcfg.nodes_of(cs.node)]
+    if not rec or not prt:
+        r.fail(w, w.node, "no record/print pair", "SectionOutput.write does not both record and print its text in the decorated branch")
+    else:
+        for a in rec:
+            paired = any((wcfg.dominates(a.id, b.id) and wcfg.post_dominated_by(a.id, {b.id})) or (wcfg.dominates(b.id, a.id) and wcfg.post_dominated_by(b.id, {a.id})) for b in prt)
+            if paired:
+                r.ok("%s: add_content and the print of the text are on the same paths" % w.short)
+            else:
+                r.fail(w, a.ast, "add_content not paired with the print", "%s can record text it does not print (or print text it does not record) - e.g. the recording comes before the verbosity gate: "
+                       "the next overwrite or clear then erases one row too many, taking a line of the section above with it" % w.short)
     return ctx.results
